@@ -40,12 +40,22 @@ for kind, want in (('mutants', 1), ('neutral', 0)):
                     tests = 'FAIL'
             c = sh(['python3', os.path.join(ROOT, 'check.py'), 'C10', '--tier', 'quick'], timeout=3000)
             lines = [l for l in c.stdout.splitlines() if l.startswith(('VIOLATION', 'KNOWN-FINDING', 'HARNESS-ERROR', '  obligation'))]
+            # a reported violation must replay exactly: exit 1 on the changed tree, exit 0 after reverting
+            replay_ok = None
+            reps = sorted(glob.glob(os.path.join(ROOT, 'replays', '*.json')))
+            if c.returncode == 1 and reps and not any('miri' in r for r in reps[:1]):
+                r1 = sh(['python3', os.path.join(ROOT, 'check.py'), 'C10', '--replay', reps[0]], timeout=900)
+                clean()
+                r0 = sh(['python3', os.path.join(ROOT, 'check.py'), 'C10', '--replay', reps[0]], timeout=900)
+                replay_ok = (r1.returncode == 1 and 'VIOLATION property=C10' in r1.stdout and r0.returncode == 0)
+            for f in reps:
+                os.remove(f)
         finally:
             clean()
-        ok = (c.returncode == want) and tests != 'FAIL'
+        ok = (c.returncode == want) and tests != 'FAIL' and replay_ok is not False
         bad += 0 if ok else 1
-        results[name] = {'kind': kind, 'tests': tests, 'check_exit': c.returncode, 'expected_exit': want, 'ok': ok, 'seconds': round(time.time() - t0, 1), 'lines': lines[:6]}
-        print('%-40s tests=%-7s check exit=%d (want %d) %s  %.0fs' % (name, tests, c.returncode, want, 'ok' if ok else '<<<<<< UNEXPECTED', time.time() - t0))
+        results[name] = {'kind': kind, 'tests': tests, 'check_exit': c.returncode, 'expected_exit': want, 'ok': ok, 'seconds': round(time.time() - t0, 1), 'replay_reproduces_and_vanishes_after_revert': replay_ok, 'lines': lines[:6]}
+        print('%-40s tests=%-7s check exit=%d (want %d) replay=%s %s  %.0fs' % (name, tests, c.returncode, want, replay_ok, 'ok' if ok else '<<<<<< UNEXPECTED', time.time() - t0))
         for l in lines[:4]:
             print('      ' + l[:230])
         json.dump(results, open(res_path, 'w'), indent=1, ensure_ascii=False)
